@@ -104,10 +104,11 @@ func (m *Manager) getEnabledOrPendingKeyVersion(ctx context.Context, parent stri
 				version = v
 			}
 		}
-		if len(vers.GetCryptoKeyVersions()) < keyPageSize {
+		// Only an empty next_page_token ends the listing (see wipeoutKey).
+		pageToken = vers.GetNextPageToken()
+		if pageToken == "" {
 			break
 		}
-		pageToken = vers.GetNextPageToken()
 	}
 	if version == nil {
 		return nil, ErrNoKeyVersions
